@@ -131,6 +131,8 @@ func (s *replaySubjectImpl[T]) Error(err error) {
 // Implements Observer.
 func (s *replaySubjectImpl[T]) ErrorWithContext(ctx context.Context, err error) {
 	s.mu.Lock()
+	defer s.unsubscribeAll() // once the lock is released: deferred calls run in reverse order
+	defer s.mu.Unlock()      // deferred: a subscriber's teardown may panic inside the terminal notification
 
 	if s.status == KindNext {
 		s.err = lo.T2(ctx, err)
@@ -139,9 +141,6 @@ func (s *replaySubjectImpl[T]) ErrorWithContext(ctx context.Context, err error) 
 	} else {
 		OnDroppedNotification(ctx, NewNotificationError[T](err))
 	}
-
-	s.mu.Unlock()
-	s.unsubscribeAll()
 }
 
 // Implements Observer.
@@ -152,6 +151,8 @@ func (s *replaySubjectImpl[T]) Complete() {
 // Implements Observer.
 func (s *replaySubjectImpl[T]) CompleteWithContext(ctx context.Context) {
 	s.mu.Lock()
+	defer s.unsubscribeAll() // once the lock is released: deferred calls run in reverse order
+	defer s.mu.Unlock()      // deferred: a subscriber's teardown may panic inside the terminal notification
 
 	if s.status == KindNext {
 		s.status = KindComplete
@@ -159,9 +160,6 @@ func (s *replaySubjectImpl[T]) CompleteWithContext(ctx context.Context) {
 	} else {
 		OnDroppedNotification(ctx, NewNotificationComplete[T]())
 	}
-
-	s.mu.Unlock()
-	s.unsubscribeAll()
 }
 
 func (s *replaySubjectImpl[T]) HasObserver() bool {
